@@ -162,10 +162,42 @@ def contentHeur (e : Expr) : Int :=
       | [] => 1
   | .error _ => 1
 
-/-- `e = c * e0` with an integer content `c ≠ 0`: `b ** e` is treated as `(b ** e0) ** c` -/
-def expContent (e : Expr) : Int × Expr :=
-  let c := contentHeur e
-  if c = 0 || c = 1 then (1, e) else (c, .mul (.rat c.sign c.natAbs) [(e, .int 1)])
+/-- a heuristic integer part of the constant term of an exponent whose normal form has a constant
+denominator (soundness does not depend on it) -/
+def constHeur (e : Expr) : Int :=
+  match NF.norm e with
+  | .ok f =>
+    match f.den with
+    | [([], d)] =>
+      if d.im == 0 && d.re != 0 then
+        match f.num.find? (fun t => t.1.isEmpty) with
+        | some (_, c0) =>
+          if c0.im == 0 then Int.tdiv c0.re d.re else 0
+        | none => 0
+      else 0
+    | _ => 0
+  | .error _ => 0
+
+/-- the exponent is (semantically) a pure number: its normal form has constant numerator and
+denominator -/
+def isRatLit (e : Expr) : Bool :=
+  match NF.norm e with
+  | .ok f => f.num.all (fun t => t.1.isEmpty) && f.den.all (fun t => t.1.isEmpty)
+  | .error _ => false
+
+/-- `e = k + c * e0` with integers `k` and `c ≠ 0`: the power `b ** e` is treated as
+`b**k · (b ** e0) ** c`; `k`, `c` are heuristic (bounded by 16), `e0` is built so that the
+equation holds for every choice -/
+def expNorm (e : Expr) : Int × Int × Expr :=
+  -- a pure rational exponent is left alone: `x**(2/3)`, `x**(-1/3)` are related by the shift /
+  -- negation matching of `atomEqWith`, which a canonical split would break
+  let k0 := if isRatLit e then 0 else constHeur e
+  let k := if k0.natAbs > 16 then 0 else k0
+  let e1 := if k = 0 then e else .add (.int (-k)) [(e, .int 1)]
+  let c0 := if isRatLit e then 1 else contentHeur e1
+  let c := if c0 = 0 || c0.natAbs > 16 then 1 else c0
+  let e0 := if c = 1 then e1 else .mul (.rat c.sign c.natAbs) [(e1, .int 1)]
+  (k, c, e0)
 
 /-- name of the `i`-th abstract atom (unary, so that the index is the length) -/
 def enc (i : Nat) : String := String.ofList (List.replicate i 'a')
@@ -179,7 +211,7 @@ mutual
     | .pow b e =>
       match intLit? e with
       | some _ => atomsOf b
-      | none => .pow b (expContent e).2 :: atomsOf b
+      | none => .pow b (expNorm e).2.2 :: atomsOf b
     | .sym n => [.sym n]
     | .dummy n i => [.dummy n i]
     | .const n => [.const n]
@@ -201,7 +233,7 @@ mutual
     | (b, e) :: t =>
       match intLit? e with
       | some _ => atomsOf b ++ atomsOfFacs t
-      | none => .pow b (expContent e).2 :: (atomsOf b ++ atomsOfFacs t)
+      | none => .pow b (expNorm e).2.2 :: (atomsOf b ++ atomsOfFacs t)
 end
 
 /-- how an atom `x` matches a table entry `r`: `x = ±r` (`neg`), and for power atoms
@@ -232,10 +264,10 @@ def absAtom (idx : Expr → Option (Nat × Match)) (x : Expr) : Option Expr :=
   | some (i, m) => if m.shift = 0 && !m.inv then some (atomSym i m.neg) else none
   | none => none
 
-/-- `Mul` dictionary entries for the power `(b ** e0) ** c` whose atom `b ** e0` matched with `q`:
-`b' ** (shift·c) · [atom] ** (±c)` -/
-def powEntries (b' : Expr) (q : Nat × Match) (c : Int) : List (Expr × Expr) :=
-  [(b', .int (q.2.shift * c)), (atomSym q.1 q.2.neg, .int (invExp q.2.inv * c))]
+/-- `Mul` dictionary entries for the power `b**k · (b ** e0) ** c` whose atom `b ** e0` matched
+with `q`: `b' ** (k + shift·c) · [atom] ** (±c)` -/
+def powEntries (b' : Expr) (q : Nat × Match) (k c : Int) : List (Expr × Expr) :=
+  [(b', .int (k + q.2.shift * c)), (atomSym q.1 q.2.neg, .int (invExp q.2.inv * c))]
 
 mutual
   /-- replace every atom by a numbered symbol; `none` when an atom has no index or the tree
@@ -256,8 +288,8 @@ mutual
       match intLit? e with
       | some n => (absE idx b).map fun b' => .pow b' (.int n)
       | none =>
-        match absE idx b, idx (.pow b (expContent e).2) with
-        | some b', some q => some (.mul (.int 1) (powEntries b' q (expContent e).1))
+        match absE idx b, idx (.pow b (expNorm e).2.2) with
+        | some b', some q => some (.mul (.int 1) (powEntries b' q (expNorm e).1 (expNorm e).2.1))
         | _, _ => none
     | .sym n => absAtom idx (.sym n)
     | .dummy n i => absAtom idx (.dummy n i)
@@ -284,8 +316,8 @@ mutual
         | some b', some t' => some ((b', .int n) :: t')
         | _, _ => none
       | none =>
-        match absE idx b, idx (.pow b (expContent e).2), absFacs idx t with
-        | some b', some q, some t' => some (powEntries b' q (expContent e).1 ++ t')
+        match absE idx b, idx (.pow b (expNorm e).2.2), absFacs idx t with
+        | some b', some q, some t' => some (powEntries b' q (expNorm e).1 (expNorm e).2.1 ++ t')
         | _, _, _ => none
 end
 
@@ -298,7 +330,7 @@ def listAll2 (p : Expr → Expr → Bool) : List Expr → List Expr → Bool
 /-- heads `h` with `h(-x) = -h(x)` / `h(-x) = h(x)` whose constructors move the sign out of the
 argument (`could_extract_minus`), so that the sign of the stored argument depends on term order -/
 def oddHeads : List String :=
-  ["Sin", "Tan", "Cot", "Csc", "Sinh", "Tanh", "Coth", "Csch", "ASinh", "ATanh", "Erf"]
+  ["Sin", "Tan", "Cot", "Csc", "Sinh", "Tanh", "Coth", "Csch", "ASinh", "ATanh", "Erf", "Sign"]
 def evenHeads : List String := ["Cos", "Sec", "Cosh", "Sech", "Abs"]
 
 def negE (a : Expr) : Expr := .mul (.int (-1)) [(a, .int 1)]
@@ -425,6 +457,37 @@ def parseCert (s : String) : Option (List (String × Expr) × List Expr) :=
     | _, _ => none
   | _ => none
 
+mutual
+  /-- is there a power `x ** (p/q)` (non-integer rational literal) of one of the given symbols? -/
+  def hasRatPowOf (syms : List String) : Expr → Bool
+    | .add c ts => hasRatPowOf syms c || hasRatPowOfPairs syms ts
+    | .mul c fs => hasRatPowOf syms c || hasRatPowOfFacs syms fs
+    | .pow b e => ratPowOfSym syms b e || hasRatPowOf syms b || hasRatPowOf syms e
+    | .fsym _ args => hasRatPowOfList syms args
+    | .app _ args => hasRatPowOfList syms args
+    | _ => false
+  def hasRatPowOfList (syms : List String) : List Expr → Bool
+    | [] => false
+    | a :: t => hasRatPowOf syms a || hasRatPowOfList syms t
+  def hasRatPowOfPairs (syms : List String) : List (Expr × Expr) → Bool
+    | [] => false
+    | (k, v) :: t => hasRatPowOf syms k || hasRatPowOf syms v || hasRatPowOfPairs syms t
+  def hasRatPowOfFacs (syms : List String) : List (Expr × Expr) → Bool
+    | [] => false
+    | (b, e) :: t => ratPowOfSym syms b e || hasRatPowOf syms b || hasRatPowOf syms e || hasRatPowOfFacs syms t
+  def ratPowOfSym (syms : List String) : Expr → Expr → Bool
+    | .sym n, .rat _ _ => syms.contains n
+    | _, _ => false
+end
+
+/-- a rational power of a replacement symbol occurs in the certificate: the library may have merged
+it with integer powers of the same symbol (`x0 * x0**(-1/2) → x0**(1/2)`), which after
+back-substitution is the radical identity `B * B**(-1/2) = B**(1/2)` that the normaliser does not
+know; when the faithfulness check fails on such a certificate the checker answers SKIP -/
+def mayMergeRadical (reps : List (String × Expr)) (reduced : List Expr) : Bool :=
+  let syms := reps.map (·.1)
+  hasRatPowOfList syms reduced || hasRatPowOfList syms (reps.map (·.2))
+
 /-- what the driver prints -/
 def judge (inputs : List Expr) (cert : String) : String :=
   match parseCert cert with
@@ -434,7 +497,9 @@ def judge (inputs : List Expr) (cert : String) : String :=
     else if !freshB inputs reps then "FAIL:not-fresh"
     else if !orderedB reps then "FAIL:not-ordered"
     else if !rhsOkB reps then "FAIL:rhs-is-a-number"
-    else if !faithfulB reps inputs reduced then "FAIL:value-differs"
+    else if !faithfulB reps inputs reduced then
+      (if mayMergeRadical reps reduced then "SKIP:rational-power-of-a-replacement-symbol-merged"
+       else "FAIL:value-differs")
     else if check inputs reps reduced then "ok" else "FAIL:check"
 
 end CSE
